@@ -158,6 +158,46 @@ def is_sym(x):
 
 # ------------------------------------------------------------------------------------------------ engine
 
+def _cvc5_check(smt2, tlimit_s):
+    """second opinion / fallback: the cvc5 binary on the SMT-LIB text; returns ('sat'|'unsat'|'unknown', {name: python value})"""
+    import subprocess, tempfile
+    with tempfile.NamedTemporaryFile('w', suffix='.smt2', delete=False) as f:
+        f.write('(set-logic ALL)\n(set-option :produce-models true)\n' + smt2.replace('(check-sat)', '(check-sat)\n(get-model)'))
+        name = f.name
+    try:
+        out = subprocess.run(['cvc5', f'--tlimit={tlimit_s * 1000}', name], capture_output=True, text=True, timeout=tlimit_s + 5).stdout
+    except Exception:
+        return 'unknown', {}
+    finally:
+        os.unlink(name)
+    first = out.strip().split('\n', 1)[0].strip() if out.strip() else 'unknown'
+    if first == 'unsat': return 'unsat', {}          # (the get-model that follows errors out, which is expected)
+    if first != 'sat' or '(error' in out: return 'unknown', {}
+    import re
+    vals = {}
+    for mm in re.finditer(r'\(define-fun\s+(\|[^|]*\||\S+)\s+\(\)\s+(Int|Real|Bool)\s+(.*?)\)\s*(?=\(define-fun|\)\s*$)', out, re.S):
+        nm = mm.group(1).strip('|'); sort = mm.group(2); v = mm.group(3).strip()
+        try:
+            if sort == 'Bool': vals[nm] = v == 'true'
+            else:
+                nums = [int(x) for x in re.findall(r'\d+', v)]
+                neg = '-' in v
+                val = nums[0] if len(nums) == 1 else (nums[0] / nums[1] if len(nums) == 2 else 0)
+                vals[nm] = -val if neg else val
+        except Exception:
+            pass
+    return 'sat', vals
+
+
+class _CvcModel:
+    """just enough of the z3 model interface for model_dict()"""
+    def __init__(self, vals): self.vals = vals
+    def eval(self, v, model_completion=True):
+        x = self.vals.get(str(v), 0)
+        return z3.BoolVal(bool(x)) if z3.is_bool(v) else z3.IntVal(int(x))
+    def __getitem__(self, f): return None
+
+
 class Stats:
     FIELDS = ('paths', 'pruned', 'ended', 'queries', 'solver_s', 'obligations', 'oracle_paths', 'known_hits')
     def __init__(self):
@@ -170,9 +210,10 @@ class Stats:
 class Engine:
     symbolic = True
 
-    def __init__(self, solver_timeout_ms=20000, use_model_guidance=True):
+    def __init__(self, solver_timeout_ms=20000, use_model_guidance=True, fresh_queries=False):
         self.solver = z3.Solver()
         self.solver.set('timeout', solver_timeout_ms)
+        self.solver_timeout_ms = solver_timeout_ms; self.fresh_queries = fresh_queries
         self.stats = Stats()
         self.guided = use_model_guidance
         self.work = []
@@ -248,15 +289,35 @@ class Engine:
     # ---- solver
     def _check(self, extra=None):
         t = time.perf_counter()
-        if extra is not None:
-            self.solver.push(); self.solver.add(extra)
-        r = self.solver.check()
-        m = self.solver.model() if r == z3.sat else None
-        if extra is not None: self.solver.pop()
+        if self.fresh_queries:
+            # non-incremental query: z3 then uses its tactic pipeline instead of the incremental core.  Portfolio: z3 (short), cvc5 binary, z3 again (full)
+            s = z3.Solver(); s.set('timeout', min(self.solver_timeout_ms, 4000))
+            s.add(self.solver.assertions())
+            if extra is not None: s.add(extra)
+            r = s.check()
+            m = s.model() if r == z3.sat else None
+            if r == z3.unknown:
+                r2, m2 = _cvc5_check(s.to_smt2(), self.solver_timeout_ms // 1000 + 1)
+                self.stats.cvc5 = getattr(self.stats, 'cvc5', 0) + 1
+                if r2 == 'unsat': r = z3.unsat
+                elif r2 == 'sat': r = z3.sat; m = _CvcModel(m2)
+            if r == z3.unknown:
+                s2 = z3.Solver(); s2.set('timeout', self.solver_timeout_ms); s2.from_string(s.to_smt2())
+                r = s2.check(); m = s2.model() if r == z3.sat else None
+            if r == z3.unknown:
+                self._unknown_reason = s.reason_unknown()
+                if os.environ.get('VERIF_DUMP_UNKNOWN'): open(os.environ['VERIF_DUMP_UNKNOWN'], 'w').write(s.to_smt2())
+        else:
+            if extra is not None:
+                self.solver.push(); self.solver.add(extra)
+            r = self.solver.check()
+            m = self.solver.model() if r == z3.sat else None
+            if r == z3.unknown: self._unknown_reason = self.solver.reason_unknown()
+            if extra is not None: self.solver.pop()
         self.stats.queries += 1; self.stats.solver_s += time.perf_counter() - t
         if r == z3.unknown:
-            raise Inconclusive(f'solver returned unknown: {self.solver.reason_unknown()}')
-        if m is not None: self._last_model = m
+            raise Inconclusive(f'solver returned unknown: {self._unknown_reason}')
+        if r == z3.sat: self._last_model = None if isinstance(m, _CvcModel) else m; self._last_any_model = m
         return r == z3.sat
 
     def branch(self, cond):
@@ -321,7 +382,10 @@ class Engine:
         """direct obligation: is `cond` implied by the path condition?  returns (True, None) or (False, model)"""
         z = _zb(cond) if not z3.is_expr(cond) else cond
         self.stats.obligations += 1
-        if self._check(z3.Not(z)): return False, self._last_model
+        if self._check(z3.Not(z)):
+            m = self._last_model
+            self._add(z3.Not(z))        # commit the rest of this path to the counterexample region, so that the reported model violates the oracle
+            return False, m
         return True, None
 
     def format_int(self, x, spec):
@@ -344,8 +408,8 @@ class Engine:
         raise PathEnd
 
     def model_dict(self):
-        if self.solver.check() != z3.sat: raise HarnessError('path condition of a completed path is not sat')
-        m = self.solver.model()
+        if not self._check(): raise HarnessError('path condition of a completed path is not sat')
+        m = self._last_any_model
         out = {}
         for v in self.vars:
             val = m.eval(v, model_completion=True)
